@@ -120,7 +120,7 @@ func (g *verifTypeGen) gen(depth int) types.Type {
 	var embeds []types.Type
 	iemb := 0
 	if vp.Thorough() {
-		iemb = []int{0, 2, 3}[vp.Choose(g.name("iemb"), 3)] // depth 2 multiplies the space: three variants
+		iemb = []int{0, 3}[vp.Choose(g.name("iemb"), 2)] // depth 2 multiplies the space: none or three embedded interfaces
 	} else {
 		iemb = vp.Choose(g.name("iemb"), 5)
 	}
